@@ -703,7 +703,17 @@ def t_cpp_unwrap(facts, res, tier):
                                     okp = False
                                     why = "%s pushes a pattern into %s that was not compiled on its own first" % (g["name"], coll)
                     if okp:
-                        cls = "set-of-compiled-patterns"
+                        # every pattern compiled on its own - but a RegexSet is ONE program with a size limit (10 MB by default):
+                        # a chunk of many large function-like macros exceeds it although each macro's regex was accepted
+                        limited = "size_limit" in norm(R) or any(x.get("k") == "mcall" and x["method"] == "size_limit" for x in walk(fn["body"]))
+                        shrinks = coll is not None and any(x.get("k") == "mcall" and x["method"] == "remove" and re.search(r"\.%s\b" % coll, norm(x["recv"])) for x in walk(fn["body"])) \
+                            and not any(x.get("k") == "mcall" and x["method"] == "push" and re.search(r"\.%s\b" % coll, norm(x["recv"])) for x in walk(fn["body"]))
+                        if limited:
+                            cls = "set-of-compiled-patterns(size limit set explicitly)"
+                        elif shrinks:
+                            cls = "subset-of-a-set-that-was-built"   # the chunk's set existed with one pattern more; a smaller set is a smaller program
+                        else:
+                            why = "each pattern of the set compiled on its own, but RegexSet::new builds one program for the whole chunk under the default size limit: many large function-like macros in one chunk (50 macros of 40 parameters) make it fail with CompiledTooBig"
                     elif why is None:
                         why = "RegexSet over patterns of unknown origin"
             elif R.get("k") == "mcall" and R["method"] == "next":
